@@ -5,7 +5,7 @@ The tree must be clean; nothing is committed there."""
 import json, os, re, subprocess, sys
 HERE = os.path.dirname(os.path.dirname(os.path.abspath(__file__)))
 REPO = os.environ.get("CUTPLACE_REPO", "/repo")
-ALSO = {"C04w16": ["C15"], "C09w16": ["C02"], "C02w15": ["C01"], "C04w14": ["C15"], "C20w14": ["C07"], "C06w14": ["C02"], "C12w12": ["C14"], "C13w12": ["C10"], "C09w11": ["C17"], "C20w11": ["C03"], "C05w9": ["C08"], "C03w9": ["C07"], "C20w9": ["C14"], "C09w9": ["C01"], "C09w7": ["C20"], "C03w8": ["C20"], "C20w8": ["C03"], "C18w7": ["C07"], "C18w8": ["C07"], "C03w6": ["C20"], "C20w6": ["C03"], "C04w6": ["C06"], "C06w6": ["C04"], "C15w6": ["C17"], "C17w6": ["C15"], "C02": ["C03"], "C17": ["C16"], "C10b": ["C15"], "C05": ["C08", "C20"], "C20": ["C07"], "C08": ["C05"], "C04": ["C06"], "C03": ["C02"]}
+ALSO = {"C20w17": ["C07"], "C09w17": ["C01"], "C04w16": ["C15"], "C09w16": ["C02"], "C02w15": ["C01"], "C04w14": ["C15"], "C20w14": ["C07"], "C06w14": ["C02"], "C12w12": ["C14"], "C13w12": ["C10"], "C09w11": ["C17"], "C20w11": ["C03"], "C05w9": ["C08"], "C03w9": ["C07"], "C20w9": ["C14"], "C09w9": ["C01"], "C09w7": ["C20"], "C03w8": ["C20"], "C20w8": ["C03"], "C18w7": ["C07"], "C18w8": ["C07"], "C03w6": ["C20"], "C20w6": ["C03"], "C04w6": ["C06"], "C06w6": ["C04"], "C15w6": ["C17"], "C17w6": ["C15"], "C02": ["C03"], "C17": ["C16"], "C10b": ["C15"], "C05": ["C08", "C20"], "C20": ["C07"], "C08": ["C05"], "C04": ["C06"], "C03": ["C02"]}
 def sh(cmd, **kw):
     return subprocess.run(cmd, shell=True, stdout=subprocess.PIPE, stderr=subprocess.STDOUT, text=True, **kw)
 assert sh("git -C %s diff --quiet" % REPO).returncode == 0, "tree not clean"
